@@ -33,7 +33,7 @@ ASSUMPTIONS = ["theorems are conditional on the run being Done (the script prefi
 
 
 def correspond(run):
-    n = 600 if run.tier == "quick" else 6000
+    n = 600 if run.depth == "quick" else 6000
     cases, codes = pmhlib.correspond_pmh(run, n)
     if cases is None:
         return
@@ -87,7 +87,7 @@ def _report(run, js):
 
 
 def direct(run):
-    n = 400 if run.tier == "quick" else 6000
+    n = 400 if run.depth == "quick" else 6000
     rc, js, out, err = vlib.harness(["pmh-props", "--seed", run.seed, "--n", n], timeout=1800)
     if rc != 0 or js is None:
         run.oblige("direct:pmh-props", "correspondence", False, (out[-400:] + err[-400:]))
